@@ -238,6 +238,13 @@ def solve_scipy(
     if accepted_exit and scipy_constraints:
         for c in scipy_constraints:
             c_val = c["fun"](result.x)
+            if not np.isfinite(c_val):
+                # A constraint that evaluates to inf / nan at the returned point
+                # is not satisfied (the scaled tolerance below would be inf / nan
+                # too and let it through).
+                max_violation = float("inf")
+                constraints_violated = True
+                continue
             # Scaled tolerance based on constraint magnitude
             scaled_tol = atol + rtol * max(1.0, abs(c_val))
 
